@@ -16,7 +16,7 @@ FOOTPRINT = ["Pickle", "Add", "Delete", "SetV", "Expire", "ExpireV", "Expunge", 
 def spec(chk):
     q = chk.quick
     return dict(
-        cfgs=[dict(name="pickle", acts=["SetV", "Expire", "ExpireV", "Expunge", "Read", "Refresh", "Pickle"], depth=5 if q else 6, edge_sample=0.5 if q else 0.3,
+        cfgs=[dict(name="pickle", acts=["SetV", "Expire", "ExpireV", "Expunge", "Read", "Refresh", "Pickle"], depth=5 if q else 6, edge_sample=0.5,
                    deep_depth=6 if q else 7, eoc=True, protos=(2, 3, 4, 5), random=200 if q else 2000)],
         invs=INVS, props=PROPS, footprint=FOOTPRINT,
         nontrivial=lambda frm, act: act["a"] == "Pickle")
